@@ -466,9 +466,11 @@ def _values(P, pal):
 
 def _make_comp(A, rs, cs, in_units, out_units, approx=None, color=False):
     import openmdao.api as om
+    H = {'A': A}       # the matrix can be replaced between two setups (holder kept on the instance)
 
     class PatComp(om.ExplicitComponent):
         def setup(self):
+            A = H['A']
             ro = np.concatenate([[0], np.cumsum(rs)]).astype(int)
             co = np.concatenate([[0], np.cumsum(cs)]).astype(int)
             for j, s in enumerate(cs):
@@ -493,16 +495,22 @@ def _make_comp(A, rs, cs, in_units, out_units, approx=None, color=False):
                     if rr.size:
                         self.declare_partials('y%d' % i, 'x%d' % j, rows=rr, cols=cc,
                                               val=blk[rr, cc])
+                    elif H.get('redeclare'):
+                        # declarations made in an earlier setup persist per (of, wrt) pair
+                        # (OpenMDAO keeps them like static declarations): withdraw them
+                        self.declare_partials('y%d' % i, 'x%d' % j, dependent=False)
 
         def compute(self, inputs, outputs):
             x = np.concatenate([inputs['x%d' % j] for j in range(len(cs))])
-            y = A.dot(x)
+            y = H['A'].dot(x)
             k = 0
             for i, s in enumerate(rs):
                 outputs['y%d' % i] = y[k:k + s]
                 k += s
 
-    return PatComp()
+    comp = PatComp()
+    comp._omv_holder = H
+    return comp
 
 
 def _scal(vals, start, size):
@@ -511,14 +519,15 @@ def _scal(vals, start, size):
     return float(v[0]) if size == 1 else v
 
 
-def _run_totals(A, rs, cs, scaling, pal, mode, color, direct, approx):
+def _run_totals(A, rs, cs, scaling, pal, mode, color, direct, approx, A_first=None):
     import openmdao.api as om
     use_units = scaling in ('units', 'both')
     use_scal = scaling in ('scalers', 'both')
     iu = [_IN_UNITS[(j + pal) % 8] for j in range(len(cs))]
     ou = [_OUT_UNITS[(i + pal) % 8] for i in range(len(rs))]
     p = om.Problem(reports=None)
-    comp = _make_comp(A, rs, cs, [u[0] if use_units else None for u in iu],
+    comp = _make_comp(A if A_first is None else A_first, rs, cs,
+                      [u[0] if use_units else None for u in iu],
                       [u[0] if use_units else None for u in ou])
     p.model.add_subsystem('c', comp, promotes=['*'])
     k = 0
@@ -554,6 +563,15 @@ def _run_totals(A, rs, cs, scaling, pal, mode, color, direct, approx):
     elif color:
         p.driver.declare_coloring(direct=direct, show_summary=False, min_improve_pct=0.)
     with contextlib.redirect_stdout(io.StringIO()), contextlib.redirect_stderr(io.StringIO()):
+        if A_first is not None:
+            # a first setup with another matrix (other sparsity, same sizes): its coloring must
+            # not survive the second setup
+            p.setup(mode=mode, force_alloc_complex=(approx == 'cs'))
+            p.run_model()
+            p.compute_totals(return_format='array', driver_scaling=True)
+            p.compute_totals(return_format='array', driver_scaling=True)
+            comp._omv_holder['A'] = A
+            comp._omv_holder['redeclare'] = True
         p.setup(mode=mode, force_alloc_complex=(approx == 'cs'))
         p.run_model()
         J = p.compute_totals(return_format='array', driver_scaling=True)
@@ -660,6 +678,24 @@ def model_single(case):
               bad.tolist()[:6], [Jc[tuple(b)] for b in bad[:6]], [J0[tuple(b)] for b in bad[:6]],
               col._fwd if col is not None else None, col._rev if col is not None else None,
               col._subtractions if col is not None else None))
+    # the same colored configuration reached through a second setup after the matrix (and its
+    # sparsity) was replaced
+    A_first = np.roll(A, 1, axis=1)
+    if not vio and not np.array_equal(A_first != 0, A != 0):
+        try:
+            J3, _, J4 = _run_totals(A, rs, cs, scaling, pal, mode, True, direct, approx,
+                                    A_first=A_first)
+            for Jc in (J3, J4):
+                if Jc is not None and not _close(Jc, J0, tol):
+                    bad = np.argwhere(~np.isclose(Jc, J0, rtol=1e-9, atol=1e-9 * np.max(np.abs(J0))))
+                    V('totals_colored_ne_uncolored', '%s/after_resetup' % cfgname,
+                      'second setup after the sparsity changed: entries %s: colored %s uncolored '
+                      '%s' % (bad.tolist()[:6], [Jc[tuple(b)] for b in bad[:6]],
+                              [J0[tuple(b)] for b in bad[:6]]))
+                    break
+        except Exception as exc:
+            V('colored_raises', '%s/after_resetup:%s' % (cfgname, type(exc).__name__),
+              '%s: %s' % (type(exc).__name__, str(exc)[:300]))
     if col is None:
         oc = 'tot:%s:no_coloring' % cfgname
         nontriv = 0
